@@ -79,6 +79,26 @@
 (*       ascending, equal counts in their original order (stable).         *)
 (*       MODEL LEVEL ONLY: get_top_proxy_connection_summary is private to  *)
 (*       service_main.rs and is not bound to the code by this check.       *)
+(*  P10 MonitorTruthful       monitorStatus.message of a document tells    *)
+(*       how the previous iteration's write went: "... is running." in the *)
+(*       first document of a process, then "written" / "Error writing".    *)
+(*  P11 PublishesEveryIteration  every iteration replaces status.json      *)
+(*       unless the file system refuses; status.tmp does not linger.       *)
+(*  P12 Returns (trace level)  set_module_state returns the state set,     *)
+(*       set_module_status_message returns "changed", the counters return  *)
+(*       their new value.                                                  *)
+(*                                                                         *)
+(* Facts met while binding (checks/x01_status.py reports them as           *)
+(* observations, none breaks P1..P12):                                     *)
+(*  - both deadlines use std::time::Instant: tokio's paused clock does not *)
+(*    move them (the harness moves CLOCK_MONOTONIC with an LD_PRELOAD shim)*)
+(*  - the 15 min event goes through event_logger::write_event, which cuts  *)
+(*    messages at 4096 bytes: with long module messages the event is not   *)
+(*    valid JSON any more                                                  *)
+(*  - real status.json documents that no single instant explains, incl.    *)
+(*    SUCCESS while the gates were never RUNNING together (StrongSnapshot) *)
+(*  - adds that reach the actor between GetAllConnectionSummary and        *)
+(*    ClearAllSummary appear in no published count (NoAddLostAtClear)      *)
 (***************************************************************************)
 EXTENDS Naturals, Sequences, FiniteSets, TLC
 
@@ -107,10 +127,11 @@ VARIABLES mstate, mmsg, conn, fail, http, tcp,     \* the actor's locals
           file, tmp,                                \* status.json, status.tmp
           lastEv, evIter,                           \* last status event written; written in this iteration?
           addsC, addsF,                             \* ghost: adds per key since the last clear / restart
+          prevWrite,                                \* ghost: how the previous iteration's write went: first | ok | err
           dirty, clearedSincePub, crashes, winAggs  \* ghosts
 
 vars == <<mstate, mmsg, conn, fail, http, tcp, pc, acc, wrOk, sinceEvent, sinceClear, file, tmp,
-          lastEv, evIter, addsC, addsF, dirty, clearedSincePub, crashes, winAggs>>
+          lastEv, evIter, addsC, addsF, prevWrite, dirty, clearedSincePub, crashes, winAggs>>
 
 -----------------------------------------------------------------------------
 Modules   == {"KeyKeeper", "TelemetryReader", "TelemetryLogger", "Redirector", "ProxyServer", "ProxyAgentStatus"}
@@ -166,7 +187,7 @@ Init ==
   /\ sinceEvent = 0 /\ sinceClear = 0
   /\ file = None /\ tmp = None
   /\ lastEv = NoEvent /\ evIter = FALSE
-  /\ addsC = EmptyC /\ addsF = EmptyF
+  /\ addsC = EmptyC /\ addsF = EmptyF /\ prevWrite = "first"
   /\ dirty = FALSE /\ clearedSincePub = FALSE /\ crashes = 0 /\ winAggs = {}
 
 -----------------------------------------------------------------------------
@@ -175,7 +196,8 @@ Init ==
 Wrote == /\ dirty' = (dirty \/ InWindow)
          /\ winAggs' = IF TrackInstants /\ InWindow THEN winAggs \cup {Agg'} ELSE winAggs
 
-TaskKeeps == UNCHANGED <<pc, acc, wrOk, sinceEvent, sinceClear, file, tmp, lastEv, evIter, clearedSincePub, crashes>>
+TaskKeeps == UNCHANGED <<pc, acc, wrOk, sinceEvent, sinceClear, file, tmp, lastEv, evIter, prevWrite, clearedSincePub,
+                         crashes>>
 
 SetState(m, s) ==
   /\ mstate' = [mstate EXCEPT ![m] = s]
@@ -220,14 +242,15 @@ Env == EnvSetState \/ EnvSetMessage \/ EnvAddConnection \/ EnvAddFailed
 Advance(n) ==
   /\ sinceEvent' = Min(sinceEvent + n, EventAfter) /\ sinceClear' = Min(sinceClear + n, ClearAfter)
   /\ UNCHANGED <<mstate, mmsg, conn, fail, http, tcp, pc, acc, wrOk, file, tmp, lastEv, evIter, addsC, addsF,
-                 dirty, clearedSincePub, crashes, winAggs>>
+                 prevWrite, dirty, clearedSincePub, crashes, winAggs>>
 Tick == Ticks /\ Advance(1)
 
 -----------------------------------------------------------------------------
 \* The status task.
 ActorKeeps == UNCHANGED <<mstate, mmsg, conn, fail, http, tcp, addsC, addsF>>
 Step(from, to) == pc = from /\ pc' = to
-Quiet == UNCHANGED <<wrOk, sinceEvent, sinceClear, file, tmp, lastEv, evIter, dirty, clearedSincePub, crashes, winAggs>>
+Quiet == UNCHANGED <<wrOk, sinceEvent, sinceClear, file, tmp, lastEv, evIter, prevWrite, dirty, clearedSincePub, crashes,
+                     winAggs>>
 
 StartSetState ==
   /\ Step("st_state", "st_msg")
@@ -240,7 +263,7 @@ StartSetMessage ==
   /\ mmsg' = [mmsg EXCEPT ![Self] = MonRunning]
   /\ sinceEvent' = 0 /\ sinceClear' = 0
   /\ dirty' = FALSE
-  /\ UNCHANGED <<mstate, conn, fail, http, tcp, addsC, addsF, acc, wrOk, file, tmp, lastEv, evIter,
+  /\ UNCHANGED <<mstate, conn, fail, http, tcp, addsC, addsF, acc, wrOk, file, tmp, lastEv, evIter, prevWrite,
                  clearedSincePub, crashes>>
   /\ winAggs' = IF TrackInstants THEN {Agg'} ELSE {}
 
@@ -279,34 +302,34 @@ StatusEvent ==
   /\ IF sinceEvent >= EventAfter
        THEN lastEv' = Pas(acc) /\ evIter' = TRUE /\ sinceEvent' = 0
        ELSE UNCHANGED <<lastEv, evIter, sinceEvent>>
-  /\ UNCHANGED <<acc, wrOk, sinceClear, file, tmp, dirty, clearedSincePub, crashes, winAggs>> /\ ActorKeeps
+  /\ UNCHANGED <<acc, wrOk, sinceClear, file, tmp, prevWrite, dirty, clearedSincePub, crashes, winAggs>> /\ ActorKeeps
 
 \* json_write_to_file: File::create(status.tmp); to_writer_pretty; rename
 CreateTmp ==
   /\ pc = "create"
   /\ \/ tmp' = Partial /\ pc' = "write" /\ UNCHANGED wrOk
      \/ IoFaults /\ UNCHANGED tmp /\ wrOk' = FALSE /\ pc' = "setmsg"
-  /\ UNCHANGED <<acc, sinceEvent, sinceClear, file, lastEv, evIter, dirty, clearedSincePub, crashes, winAggs>>
+  /\ UNCHANGED <<acc, sinceEvent, sinceClear, file, lastEv, evIter, prevWrite, dirty, clearedSincePub, crashes, winAggs>>
   /\ ActorKeeps
 
 WriteTmp ==
   /\ pc = "write"
   /\ \/ tmp' = acc /\ pc' = "rename" /\ UNCHANGED wrOk
      \/ IoFaults /\ UNCHANGED tmp /\ wrOk' = FALSE /\ pc' = "setmsg"
-  /\ UNCHANGED <<acc, sinceEvent, sinceClear, file, lastEv, evIter, dirty, clearedSincePub, crashes, winAggs>>
+  /\ UNCHANGED <<acc, sinceEvent, sinceClear, file, lastEv, evIter, prevWrite, dirty, clearedSincePub, crashes, winAggs>>
   /\ ActorKeeps
 
 RenameTmp ==
   /\ pc = "rename" /\ pc' = "setmsg"
   /\ \/ file' = tmp /\ tmp' = None /\ wrOk' = TRUE /\ clearedSincePub' = FALSE
      \/ IoFaults /\ UNCHANGED <<file, tmp, clearedSincePub>> /\ wrOk' = FALSE
-  /\ UNCHANGED <<acc, sinceEvent, sinceClear, lastEv, evIter, dirty, crashes, winAggs>>
+  /\ UNCHANGED <<acc, sinceEvent, sinceClear, lastEv, evIter, prevWrite, dirty, crashes, winAggs>>
   /\ ActorKeeps
 
 SetMonitorMessage ==
   /\ Step("setmsg", "clear")
   /\ mmsg' = [mmsg EXCEPT ![Self] = IF wrOk THEN MonWritten ELSE MonError]
-  /\ acc' = Blank /\ wrOk' = TRUE
+  /\ acc' = Blank /\ wrOk' = TRUE /\ prevWrite' = IF wrOk THEN "ok" ELSE "err"
   /\ UNCHANGED <<mstate, conn, fail, http, tcp, addsC, addsF, sinceEvent, sinceClear, file, tmp, lastEv, evIter,
                  dirty, clearedSincePub, crashes, winAggs>>
 
@@ -318,13 +341,13 @@ ClearCheck ==
             /\ sinceClear' = 0 /\ clearedSincePub' = TRUE
        ELSE UNCHANGED <<conn, fail, addsC, addsF, sinceClear, clearedSincePub>>
   /\ evIter' = FALSE /\ lastEv' = NoEvent          \* (ghosts of this iteration's event)
-  /\ UNCHANGED <<mstate, mmsg, http, tcp, acc, wrOk, sinceEvent, file, tmp, dirty, crashes, winAggs>>
+  /\ UNCHANGED <<mstate, mmsg, http, tcp, acc, wrOk, sinceEvent, file, tmp, prevWrite, dirty, crashes, winAggs>>
 
 Wake ==
   /\ Step("sleep", "kk_s")
   /\ dirty' = FALSE
   /\ winAggs' = IF TrackInstants THEN {Agg} ELSE {}
-  /\ UNCHANGED <<acc, wrOk, sinceEvent, sinceClear, file, tmp, lastEv, evIter, clearedSincePub, crashes>>
+  /\ UNCHANGED <<acc, wrOk, sinceEvent, sinceClear, file, tmp, lastEv, evIter, prevWrite, clearedSincePub, crashes>>
   /\ ActorKeeps
 
 Task ==
@@ -344,6 +367,7 @@ Crash ==
   /\ conn' = EmptyC /\ fail' = EmptyF /\ http' = 0 /\ tcp' = 0 /\ addsC' = EmptyC /\ addsF' = EmptyF
   /\ pc' = "st_state" /\ acc' = Blank /\ wrOk' = TRUE /\ sinceEvent' = 0 /\ sinceClear' = 0
   /\ lastEv' = NoEvent /\ evIter' = FALSE /\ dirty' = FALSE /\ clearedSincePub' = TRUE /\ winAggs' = {}
+  /\ prevWrite' = "first"
   /\ UNCHANGED <<file, tmp>>
 
 Next == \/ EnvSetState \/ EnvSetMessage \/ EnvAddConnection \/ EnvAddFailed
@@ -440,6 +464,13 @@ EventWhenDue     == [][(pc = "event" /\ pc' = "create" /\ sinceEvent >= EventAft
 ClearOnlyWhenDue == [][(crashes' = crashes /\ pc # "st_msg" /\ sinceClear' < sinceClear) => ClearStep]_vars
 ClearWhenDue     == [][(pc = "clear" /\ pc' = "sleep" /\ sinceClear >= ClearAfter)
                          => (conn' = EmptyC /\ fail' = EmptyF /\ sinceClear' = 0)]_vars
+
+\* P10: the monitor message of a document tells how the PREVIOUS iteration's write went
+MonitorTruthful ==
+  [][Published_ => file'.mon.id = (CASE prevWrite = "first" -> "mon_running" [] prevWrite = "ok" -> "mon_written"
+                                     [] OTHER -> "mon_error")]_vars
+\* P11: unless the file system refuses, every iteration replaces the file with what it collected
+PublishesEveryIteration == [][(pc = "rename" /\ pc' = "setmsg" /\ ~IoFaults) => (file' = acc /\ tmp' = None)]_vars
 
 \* P9 -- the extension's reduction (service_main.rs get_top_proxy_connection_summary), model level only:
 \* summary.sort_by(count) (stable), then split_off(len - max_count)
